@@ -22,7 +22,7 @@ def main():
         sys.exit(0 if ok else 1)
     pid, tier, mode, out = sys.argv[1:5]
     import pytrs
-    assert os.path.realpath(pytrs.__file__).startswith('/repo/'), pytrs.__file__
+    assert os.path.realpath(pytrs.__file__).startswith(os.path.realpath(H.REPO) + os.sep), pytrs.__file__
     mod = importlib.import_module('props.' + pid.lower())
     try:
         res = mod.run(tier, mode)
